@@ -271,6 +271,11 @@ def gen_fault(g, cfg):
             if kind == "request-abort":
                 cfg["on_error"] = "abort"
                 f["status"] = g.pick([400, 404, 500])
+            if kind == "conn-fatal" and g.coin(0.4):
+                # an overloaded node that dies: the first attempts run into the client's time-out (which the transport is told to retry),
+                # the following ones are refused
+                f["timeouts_first"] = g.pick([1, 1, 2])
+                cfg["client_retry_on_timeout"] = True
             if kind == "soft-fail-abort":
                 # the runner does not raise: it reports the failure in its return value (like a bulk response with errors)
                 cfg["on_error"] = "abort"
@@ -443,6 +448,13 @@ class RaceHarness(Harness):
                     if kind == "runner-raise":
                         c["fault"]["how"] = "runtime"
                     yield c
+                    if kind == "conn-fatal":
+                        # the first attempt times out (the transport retries time-outs), the retries are refused; at the very last
+                        # request of a task nothing else runs into the dead node afterwards
+                        c = json.loads(json.dumps(c))
+                        c["fault"]["timeouts_first"] = 1
+                        c["client_retry_on_timeout"] = True
+                        yield c
                     if kind == "runner-raise":
                         c = json.loads(json.dumps(c))
                         c["fault"] = {"kind": "soft-fail-abort", "task": c["fault"]["task"], "seq": c["fault"]["seq"]}
@@ -641,6 +653,8 @@ class RaceHarness(Harness):
         req_errors = cfg.get("req_errors") or {}
         tasks_by_name = {t["name"]: t for _, _, t in leaf_tasks(run_cfg["schedule"])}
 
+        cluster_down = [False]
+
         def policy_factory(clock, ch_):
             s = ch_.stream("service-time")
             attempts = {}
@@ -668,8 +682,15 @@ class RaceHarness(Harness):
                         if fault["kind"] == "request-abort":
                             fired["request_error_abort"] = fired.get("request_error_abort", 0) + 1
                             return Outcome(delay=d, kind="status", status=fault.get("status", 500))
+                        n_att = attempts.get(w.path, 0)
+                        attempts[w.path] = n_att + 1
+                        if n_att < fault.get("timeouts_first", 0):
+                            fired["timeout_before_connection_error"] = fired.get("timeout_before_connection_error", 0) + 1
+                            return Outcome(delay=d, kind="timeout")
                         fired["connection_error_fatal"] = fired.get("connection_error_fatal", 0) + 1
+                        cluster_down[0] = True
                         return Outcome(delay=d, kind="conn-error")
+                cluster_down[0] = False  # (whatever refused the connection answers again)
                 return Outcome(delay=d)
 
             return policy
@@ -855,10 +876,32 @@ class RaceHarness(Harness):
 
                 metrics.InMemoryMetricsStore._add = _add
 
+        # Cluster-level telemetry is switched off under the static-response seam.  Its internal devices talk to the cluster when the
+        # benchmark stops and some of them (IngestPipelineStats) raise a Rally error when it does not answer: a stand-in device does
+        # the same once a fatal connection error has been injected
+        from esrally import exceptions as _exc
+        from esrally import telemetry as _telemetry
+        from esrally.driver import driver as _driver
+
+        class ClusterDevice(_telemetry.InternalTelemetryDevice):
+            def on_benchmark_stop(self_):
+                if cluster_down[0]:
+                    fired["telemetry_stop_with_cluster_down"] = fired.get("telemetry_stop_with_cluster_down", 0) + 1
+                    raise _exc.RallyError("simulated telemetry device: the cluster does not answer")
+
+        orig_prepare_telemetry = _driver.Driver.prepare_telemetry
+
+        def prepare_telemetry(self_, *a, **kw):
+            orig_prepare_telemetry(self_, *a, **kw)
+            self_.telemetry.devices.append(ClusterDevice())
+
+        if prop == "C09":
+            _driver.Driver.prepare_telemetry = prepare_telemetry
         try:
             try:
                 out = sim.run(policy_factory, prepare=prepare, observe=observe)
             finally:
+                _driver.Driver.prepare_telemetry = orig_prepare_telemetry
                 if "orig_add" in state:
                     metrics.InMemoryMetricsStore._add = state["orig_add"]
                 if "orig_bulk_add" in state:
